@@ -776,7 +776,16 @@ AnyP::Uri::absolutePath() const
 {
     if (absolutePath_.isEmpty()) {
         // TODO: Encode each URI subcomponent in path_ as needed.
-        absolutePath_ = Encode(path(), PathChars());
+        // path_ also carries any "?query" and "#fragment"; only the path proper
+        // is restricted to pchar: encoding the delimiters would change the URI
+        static const CharacterSet pathEnd("path-end", "?#");
+        const auto endOfPath = path().findFirstOf(pathEnd);
+        if (endOfPath == SBuf::npos) {
+            absolutePath_ = Encode(path(), PathChars());
+        } else {
+            absolutePath_ = Encode(path().substr(0, endOfPath), PathChars());
+            absolutePath_.append(path().substr(endOfPath));
+        }
     }
 
     return absolutePath_;
